@@ -172,9 +172,8 @@ def parseSnap (impl : String) : Snap :=
 structure St where
   model : Option State := none
   prev  : Snap := {}
-  /-- MACs / addresses whose establishment was raced by a termination that ended the session, in this sequence -/
-  racedMacs : List Nat := []
-  racedAddrs : List Nat := []
+  /-- MACs whose current lease was made from a stale circuit-id index entry (model: `staleHit`) -/
+  revived : List Nat := []
 
 def showReply : Reply → String
   | .offer ip => s!"offer:a{ip}"
@@ -228,7 +227,7 @@ def step (st : St) (toks : List String) (impl : String) : St × LineResult :=
     | some lt =>
       if (r == "radius" || r == "noradius") && 1 ≤ lt && lt ≤ 100000 then
         let m := init (r == "radius") lt
-        (({ model := some m, prev := parseSnap impl, racedMacs := [], racedAddrs := [] } : St), ({ modelObs := "ok " ++ showSnapshot m } : LineResult))
+        (({ model := some m, prev := parseSnap impl, revived := [] } : St), ({ modelObs := "ok " ++ showSnapshot m } : LineResult))
       else (st, { modelObs := "badop" })
     | none => (st, { modelObs := "badop" })
   match toks with
@@ -289,18 +288,19 @@ def step (st : St) (toks : List String) (impl : String) : St × LineResult :=
       | some (m', reply, kind) =>
         let m' := fixStale m'
         let cur := parseSnap impl
-        -- a raced establishment whose session the inner termination ended: the MAC and the address stay tainted
-        let lost : Option (Nat × Nat) := match kind.established with
-          | some (em, eip) => if (AMap.lookup m'.leases em).isNone then some (em, eip) else none
-          | none => none
-        let rm := match lost with
-          | some (em, _) => em :: st.racedMacs
-          | none => st.racedMacs
-        let ra := match lost with
-          | some (_, eip) => eip :: st.racedAddrs
-          | none => st.racedAddrs
-        let vs := monitor st.prev cur { kind with racedMacs := rm, racedAddrs := ra }
-        ({ model := some m', prev := cur, racedMacs := rm, racedAddrs := ra },
+        -- a REQUEST (plain or raced) that the slow path answered from a stale index entry: the lease it makes is a
+        -- revived dead lease, until that lease is gone again
+        let hit : Option Nat := match parseEstGap toks, toks with
+          | some (k, _, c, _), _ => if (staleHit m k c).isSome then some k else none
+          | none, ["req", k, _, c] => match parseMac k, parseCid c with
+            | some k, some c => if (staleHit m k c).isSome then some k else none
+            | _, _ => none
+          | none, _ => none
+        let revNow := match hit with
+          | some k => if st.revived.contains k then st.revived else k :: st.revived
+          | none => st.revived
+        let vs := monitor st.prev cur { kind with revived := revNow }
+        ({ model := some m', prev := cur, revived := revNow.filter fun k => (AMap.lookup m'.leases k).isSome },
          { modelObs := reply ++ " " ++ showSnapshot m', viols := vs })
 
 def component : Component := { σ := St, init := {}, step := step }
